@@ -5,7 +5,7 @@ C03 CODE MODEL: txdbus/message.py as the code is written (after repairs 7466ae7:
 restores the two flags; efe5b53: the constructors test `is not None`; d5434a8: parseMessage refuses a
 truthy signature attribute that is not a str of at most 255 characters; 84eeaa3: `_marshal` has a
 parameter `rawBody=None` used only by the bus when it forwards a received message - the constructors
-never pass it, the model is `_marshal` with `rawBody is None`).
+never pass it; `remarshal` below is that forwarding call; 9fa03fd: `_marshal` types `reply_serial` as UInt32).
 
   * a message object is its class, the two flag attributes, the nine header attributes
     (`getattr(self, name, None)`: an attribute that was never set reads as None, like the class
@@ -94,15 +94,15 @@ def toUInt32 : PyVal → Except PyErr PyVal
   | .bool b => .ok (.int .uint32 (if b then 1 else 0))
   | _ => .error .other        -- int(x) of a non-int: outside the documented argument types
 
-/-- The wrapper typing of `_marshal`'s header loop.  (`reply_serial` is typed by the constructors -
-`marshal.UInt32(reply_serial)` - not here; the proposed repair fixes/C14-03 adds `reply_serial` to the
-`unix_fds` branch for re-marshalled PARSED messages: when it is applied, the `.replySerial` case becomes
-`toUInt32 hval`, which is the identity on what the constructors store.) -/
+/-- The wrapper typing of `_marshal`'s header loop: path -> ObjectPath, signature -> Signature, unix_fds and
+reply_serial -> UInt32 (repair 9fa03fd: a parsed message holds `reply_serial` as a plain int; the constructors
+store `UInt32(reply_serial)` already, on which the wrapper is the identity). -/
 def wrapAttr (a : Attr) (hval : PyVal) : Except PyErr PyVal :=
   match a with
   | .path => toStrCls .objectPath hval
   | .signature => toStrCls .signature hval
   | .unixFds => toUInt32 hval
+  | .replySerial => toUInt32 hval
   | _ => .ok hval
 
 /-- `self.headers`: for every table entry whose attribute is not None, `[code, typed value]`. -/
@@ -183,6 +183,27 @@ def marshalMsg {β : Type} (T : Tables) (C : BodyCodec β) (maxLen : Nat) (st : 
   match marshalBody T C p oobFDs with
   | .error x => (st, .error x)
   | .ok (binBody, attrs, table) => finishMarshal T maxLen st p binBody attrs table
+
+/-- `m._marshal(False, rawBody=rawBody)` on an existing (parsed) message object whose instance attribute `endian`
+is `endian` - what the bus does when it forwards a received message (bus.py, after 84eeaa3): no new serial, the
+body bytes are taken as given, the header table is the class's `_headerAttrs` (the `unix_fds` entry is only
+added on the body-encoding path), the header is encoded in the byte order `endian == ord('l')`. -/
+def remarshal {β : Type} (T : Tables) (maxLen : Nat) (m : Msg β) (endian : Nat) (rawBody : Bytes) :
+    Except PyErr (Msg β) :=
+  match buildHeaders m.attrs (T.headerAttrs m.cls) with
+  | .error x => .error x
+  | .ok headers =>
+    let le := endian == 108
+    if T.headerFormat ≠ ['y', 'y', 'y', 'y', 'u', 'u', 'a', '(', 'y', 'v', ')'] then .error .other
+    else
+    match marshalHeader T.align le (.int .plain (endian : Nat)) (.int .plain (T.messageType m.cls : Nat))
+            (.int .plain (flagsByte m.expectReply m.autoStart : Nat)) (.int .plain (T.protocolVersion : Nat))
+            (.int .plain (rawBody.length : Nat)) (.int .plain (m.serial : Nat)) headers with
+    | .error x => .error x
+    | .ok binHeader =>
+      let pad := headerPadding binHeader.length
+      if (binHeader ++ pad ++ rawBody).length > maxLen then .error .marshalling
+      else .ok { m with rawHeader := binHeader, rawPadding := pad, rawBody := rawBody }
 
 /-! ### The four constructors
 
